@@ -10,7 +10,8 @@ MANIFEST = dict(
     design='6/C13')
 
 THEOREMS = ["Props.C13.C13_structured_reachable", "Props.C13.C13_cause_reachable", "Props.C13.C13_origin_code_exposed",
-            "Props.C13.C13_cause_reachable_refuted_at_rewrap_sites", "Props.C13.C13_observed_shape_derivable"]
+            "Props.C13.C13_cause_reachable_refuted_at_rewrap_sites", "Props.C13.C13_observed_shape_derivable",
+            "Props.C13.C13_tokenizer_error_offset", "Props.C13.C13_tokenizer_error_location_inside"]
 INST = ["Inst_C13.c13_site_table_ok", "Inst_C13.c13_no_rewrap", "Inst_C13.c13_table_closed", "Inst_C13.c13_api_nodes"]
 
 TOK = re.compile(r"""\s+|--[^\n]*|/\*.*?\*/|'(?:[^'\\]|\\.|'')*'|"(?:[^"\\]|\\.)*"|`[^`]*`|[A-Za-z_][A-Za-z0-9_$]*|\d+(?:\.\d+)?(?:[eE][+-]?\d+)?|<>|<=|>=|!=|\|\||::|->>|->|.""", re.S)
@@ -239,8 +240,10 @@ def run(tier):
             an = errflow.analyze(ef)
             errflow.emit(ef, an)
             common.stage_harness()
+            import gen04   # the tokenizer model (error-location theorems, Proofs/LexErrLocP.v) is built over the lexical tables of this tree
+            gen04.emit_lextables(gen04.stage_lextables())
             ok_inst, ok_props, _, logs = common.coq_stage(
-                rp, ["theories/Inst/Inst_C13.vo", "theories/Proofs/ErrFlowP.vo"], "theories/Props/C13.v", THEOREMS, inst_names=INST)
+                rp, ["theories/Inst/Inst_C13.vo", "theories/Proofs/ErrFlowP.vo", "theories/Proofs/LexErrLocP.vo"], "theories/Props/C13.v", THEOREMS, inst_names=INST)
     except common.StageError as e:
         return common.stage_fail(rp, e)
     limit = int(static["consts"]["pkg/sql/parser.MaxRecursionDepth"])
